@@ -863,6 +863,214 @@ func v10RPCHistory(x *vexp.X, kind string) vexp.Result {
 	return vexp.Result{Nontrivial: true, Outcome: fmt.Sprintf("first-start-failed=%v then 2 cycles ok", err1 != nil)}
 }
 
+// v10RPCScenario (S11): the life cycle as a client sees it, through the real SourceControl request handlers, with a
+// source that ends BY ITSELF (the real ErroringSource, the only self-terminating source SourceControl can be asked
+// for by name without hardware: its producer sends an error block and the core loop returns), under the controlled
+// scheduler. Per cycle: SourceControl.Start; the run ends on its own; nstop concurrent SourceControl.Stop calls
+// (requests of different client connections are served concurrently), either after the run has ended or racing
+// with the ending; once all of them have returned the source must be Inactive and the next SourceControl.Start must
+// succeed. After the last cycle the same SourceControl must start another of its sources (Triangle, timers behind
+// the seam), data must arrive, and Stop must return (canonical schedule; "never" is a deadlock verdict).
+// What Stop replies is not judged: only that it returns.
+type v10RPCScenario struct {
+	name    string
+	waitEnd bool // the callers wait for the run to end by itself before they call Stop (else Stop races with the ending)
+	nstop   int  // concurrent SourceControl.Stop callers per cycle (the operator is one of them)
+	cycles  int
+}
+
+// v10Drain does what the client updater and RunRPCServer's heartbeat collector do with SourceControl's two outgoing
+// channels: receive. It is started by a driver thread (so it belongs to the execution's world) and has no scheduling
+// points of its own: it runs as part of the step that sends. delivered (may be nil) is closed at the second
+// heartbeat that reports data: the producer has then handed its first block to the core loop.
+func v10Drain(sc *SourceControl, updates chan ClientUpdate, quit chan struct{}, delivered chan struct{}) {
+	n := 0
+	for {
+		select {
+		case <-updates:
+		case h := <-sc.heartbeats:
+			if h.Running && h.DataMB > 0 {
+				n++
+				if n == 2 && delivered != nil {
+					close(delivered)
+				}
+			}
+		case <-quit:
+			return
+		}
+	}
+}
+
+func (rs v10RPCScenario) run(x *vexp.X) vexp.Result {
+	sc := NewSourceControl()
+	sc.status.Npresamp, sc.status.Nsamples = 3, 6
+	updates := make(chan ClientUpdate, 10) // as clientMessageChan
+	sc.clientUpdates = updates
+	defer func() {
+		for _, a := range []*AnySource{&sc.erroring.AnySource, &sc.triangle.AnySource} {
+			if a.numberWrittenTicker != nil {
+				a.numberWrittenTicker.Stop()
+				a.writingState.externalTriggerTicker.Stop()
+				a.writingState.dataDropTicker.Stop()
+			}
+		}
+	}()
+	var viol, class string
+	fail := func(c, f string, a ...interface{}) {
+		if viol == "" {
+			viol, class = fmt.Sprintf(f, a...), c
+		}
+	}
+	name, dummy := "ERRORINGSOURCE", ""
+	src := sc.erroring
+	stopErrs := make([]error, rs.cycles*rs.nstop)
+	started := make([]chan struct{}, rs.cycles)
+	returned := make([]chan struct{}, rs.cycles)
+	for c := range started {
+		started[c] = make(chan struct{})
+		returned[c] = make(chan struct{}, rs.nstop)
+	}
+	aborted := false
+	quit := make(chan struct{})
+	stop := func(c, i int) {
+		if rs.waitEnd {
+			src.RunDoneWait() // the run has ended by itself; the caller cannot know and asks for a Stop
+		}
+		ok := false
+		stopErrs[c*rs.nstop+i] = sc.Stop(&dummy, &ok)
+	}
+	drivers := []func(){func() {
+		defer close(quit)
+		go v10Drain(sc, updates, quit, nil)
+		abort := func(c int) {
+			aborted = true
+			for ; c < rs.cycles; c++ {
+				close(started[c])
+			}
+		}
+		for c := 0; c < rs.cycles; c++ {
+			ok := false
+			if err := sc.Start(&name, &ok); err != nil {
+				if c == 0 {
+					fail("start-error", "SourceControl.Start(%s) with no source active returned %v", name, err)
+				} else {
+					fail("restart-error", "cycle %d: the previous run of %s has ended, all %d SourceControl.Stop calls have returned (%v) and the source is Inactive, but SourceControl.Start returned %v",
+						c+1, name, rs.nstop, errTexts(stopErrs[(c-1)*rs.nstop:c*rs.nstop]), err)
+				}
+				abort(c)
+				return
+			}
+			close(started[c])
+			stop(c, 0)
+			for i := 1; i < rs.nstop; i++ {
+				<-returned[c]
+			}
+			if st := src.GetState(); st != Inactive {
+				fail("not-inactive", "cycle %d: all SourceControl.Stop calls have returned (%v) but the source state is %v, not Inactive",
+					c+1, errTexts(stopErrs[c*rs.nstop:(c+1)*rs.nstop]), st)
+				abort(c + 1)
+				return
+			}
+		}
+	}}
+	names := []string{"operator"}
+	for i := 1; i < rs.nstop; i++ {
+		i := i
+		names = append(names, fmt.Sprintf("stopper%d", i))
+		drivers = append(drivers, func() {
+			for c := 0; c < rs.cycles; c++ {
+				<-started[c]
+				if aborted {
+					return
+				}
+				stop(c, i)
+				returned[c] <- struct{}{}
+			}
+		})
+	}
+	s := vhook.Run(x, vhook.Options{MaxSteps: 600, Names: names}, drivers...)
+	out := s.Outcome()
+	if out.Pruned {
+		s.Release(2 * time.Second)
+		if out.PanicClass != "" {
+			return vexp.Result{Violation: rs.name + ": a SourceControl call panicked (free-running tail of a pruned execution): " + out.PanicText, Class: out.PanicClass}
+		}
+		return vexp.Result{Skip: true}
+	}
+	if out.PanicClass != "" {
+		fail(out.PanicClass, "a SourceControl call panicked: %s", out.PanicText)
+	} else if out.Deadlock {
+		fail("deadlock", "deadlock: %v", out.Blocked)
+	} else if out.Horizon {
+		fail("runaway", "no termination within %d scheduling steps", out.Steps)
+	}
+	surv := s.Release(2 * time.Second)
+	if viol == "" && out.PanicClass != "" {
+		fail(out.PanicClass, "a SourceControl call panicked: %s", out.PanicText)
+	}
+	if viol == "" && len(surv) > 0 {
+		fail("goroutine-left", "all calls returned and the source is inactive, but goroutines of the run are still alive: %v", surv)
+	}
+	if viol == "" {
+		// the same SourceControl can start a source again, and data arrive (canonical schedule)
+		vSimTicks = 3
+		quit2 := make(chan struct{})
+		delivered := make(chan struct{})
+		var cerr, rerr, serr error
+		var st2 SourceState
+		reached := false
+		s2 := vhook.Run(&vexp.X{}, vhook.Options{MaxSteps: 600, Names: []string{"operator"}}, func() {
+			defer close(quit2)
+			go v10Drain(sc, updates, quit2, delivered)
+			ok := false
+			if cerr = sc.ConfigureTriangleSource(&TriangleSourceConfig{Nchan: 2, SampleRate: 1e6, Min: 100, Max: 102}, &ok); cerr != nil {
+				return
+			}
+			tname := "TRIANGLESOURCE"
+			if rerr = sc.Start(&tname, &ok); rerr != nil {
+				return
+			}
+			<-delivered
+			serr = sc.Stop(&dummy, &ok)
+			st2 = sc.triangle.GetState()
+			reached = true
+		})
+		o2 := s2.Outcome()
+		s2.Release(2 * time.Second)
+		last := errTexts(stopErrs[(rs.cycles-1)*rs.nstop:])
+		switch {
+		case o2.PanicClass != "":
+			fail(o2.PanicClass, "starting the Triangle source afterwards panicked: %s", o2.PanicText)
+		case cerr != nil:
+			fail("valid-configuration-rejected", "ConfigureTriangleSource returned %v", cerr)
+		case rerr != nil:
+			fail("restart-error", "the last run of %s has ended, all %d SourceControl.Stop calls have returned (%v) and the source is Inactive, but SourceControl.Start(TRIANGLESOURCE) returned %v", name, rs.nstop, last, rerr)
+		case o2.Deadlock || o2.Horizon || !reached:
+			fail("restart-delivers-nothing", "the Triangle source started afterwards never delivered data (or its Stop never returned): %v", o2.Blocked)
+		case serr != nil:
+			fail("restart-stop-error", "Stop of the Triangle source started afterwards returned %v", serr)
+		case st2 != Inactive:
+			fail("not-inactive", "after the Triangle source started afterwards was stopped its state is %v", st2)
+		}
+	}
+	if viol != "" {
+		viol = fmt.Sprintf("%s: %s\nschedule: %s", rs.name, viol, s.TraceString())
+	}
+	return vexp.Result{Violation: viol, Class: class, Nontrivial: out.Preempt > 0, Outcome: fmt.Sprintf("rpc-stop=%v", errStrs(stopErrs))}
+}
+
+func errTexts(es []error) []string {
+	var out []string
+	for _, e := range es {
+		if e == nil {
+			out = append(out, "nil")
+		} else {
+			out = append(out, e.Error())
+		}
+	}
+	return out
+}
+
 func TestVerifC10(t *testing.T) {
 	r := vexp.NewRunner("C10")
 	r.CrashTrace = true
@@ -873,7 +1081,7 @@ func TestVerifC10(t *testing.T) {
 	if r.Thorough() {
 		pbCore, pbWide, pbDelay = 3, 2, 5
 	}
-	r.SetBound(fmt.Sprintf("all interleavings (all select alternatives) with at most %d preemptions for the core scenarios (Start + 2 concurrent Stop callers against the real CoreLoop and a scripted producer that runs normally / sends an error block / closes its channel) and at most %d for the wider ones (Start || Start, 1-2 blocks before the event, 3 Stop callers, writing active or paused, a request handed to the core loop while Stop is called, Start/Stop/Start histories incl. a first Start failing in Sample, PrepareRun or StartRun), each followed by a restart of the same source object; and the real AbacoSource (scripted packet producer, clock thread) and LanceroSource (scripted card, clock thread) and the real TriangleSource / SimPulseSource (timers behind a seam: ready three times per execution) under Start, a queued request and Stop; free-running histories through the SourceControl methods (rejected configuration, Start, valid configuration, Start/Stop twice) for the Triangle, SimPulse and Lancero (NoHardware card) sources, and with a real UDP receiver (Start while nothing is sending, or while overlapping channel groups are being sent, fails; then the same source, configured again, starts once proper packets flow); the request and Abaco scenarios are delay-bounded: at most %d deviations of any kind (thread choice or select alternative) from the canonical schedule", pbCore, pbWide, pbDelay))
+	r.SetBound(fmt.Sprintf("all interleavings (all select alternatives) with at most %d preemptions for the core scenarios (Start + 2 concurrent Stop callers against the real CoreLoop and a scripted producer that runs normally / sends an error block / closes its channel) and at most %d for the wider ones (Start || Start, 1-2 blocks before the event, 3 Stop callers, writing active or paused, a request handed to the core loop while Stop is called, Start/Stop/Start histories incl. a first Start failing in Sample, PrepareRun or StartRun), each followed by a restart of the same source object; and the real AbacoSource (scripted packet producer, clock thread) and LanceroSource (scripted card, clock thread) and the real TriangleSource / SimPulseSource (timers behind a seam: ready three times per execution) under Start, a queued request and Stop; free-running histories through the SourceControl methods (rejected configuration, Start, valid configuration, Start/Stop twice) for the Triangle, SimPulse and Lancero (NoHardware card) sources, and with a real UDP receiver (Start while nothing is sending, or while overlapping channel groups are being sent, fails; then the same source, configured again, starts once proper packets flow); the life cycle through the real SourceControl handlers with a source that ends by itself (the real ErroringSource): 3 cycles of Start / the run ends on an error block / Stop (2 cycles with two concurrent Stop callers), Stop called after the run has ended or racing with its ending (at most %d preemptions, %d with two callers), each Start after the first required to succeed, followed by a Triangle start through the same SourceControl that must deliver; the request and Abaco scenarios are delay-bounded: at most %d deviations of any kind (thread choice or select alternative) from the canonical schedule", pbCore, pbWide, pbCore, pbWide, pbDelay))
 	dir := filepath.Join(os.Getenv("TMPDIR"), "c10")
 	os.MkdirAll(dir, 0755)
 	var scs []v10Scenario
@@ -923,6 +1131,19 @@ func TestVerifC10(t *testing.T) {
 	}
 	r.DFS("S9-abaco-udp/nothing-sending-then-start", -1, func(x *vexp.X) vexp.Result { return v10AbacoUDP(x, false) })
 	r.DFS("S9-abaco-udp/overlapping-groups-then-start", -1, func(x *vexp.X) vexp.Result { return v10AbacoUDP(x, true) })
+	for _, rs := range []v10RPCScenario{
+		{name: "S11-rpc/erroring/stop-after-self-end/stoppers1", waitEnd: true, nstop: 1, cycles: 3},
+		{name: "S11-rpc/erroring/stop-races-self-end/stoppers1", waitEnd: false, nstop: 1, cycles: 3},
+		{name: "S11-rpc/erroring/stop-after-self-end/stoppers2", waitEnd: true, nstop: 2, cycles: 2},
+		{name: "S11-rpc/erroring/stop-races-self-end/stoppers2", waitEnd: false, nstop: 2, cycles: 2},
+	} {
+		rs := rs
+		bound := pbWide
+		if rs.nstop == 1 {
+			bound = pbCore
+		}
+		r.DFSSharded(rs.name, bound, 4, func(x *vexp.X) vexp.Result { return rs.run(x) })
+	}
 	for _, sc := range scs {
 		sc := sc
 		bound := pbWide
